@@ -19,6 +19,11 @@
      pass 3  every recorded image: Face, erase the rows of its rectangle,
              CursorTo, Image.
      then    back := front (glyphs resolved), front := default, marks := Empty.
+   (In the code the marks are local to frame(): filled at its start with Damaged when the
+   force_repaint flag is set by clear()/new(clear=true), Empty otherwise; the flag is cleared when the
+   frame is complete.  The model keeps the equivalent grid: all Damaged after rclear / rnew true, all
+   Empty after a frame.  A frame() that fails half-way — Terminal::execute returning an error — is
+   outside the model: the terminal then has not executed what was issued.)
 
    Pass 2 is written as the composition of the diff proper ([paints_row]: what
    is painted where) and the cursor/face tracking ([emit]); their composition
